@@ -40,6 +40,14 @@ def newest(patterns):
     return t
 
 
+# Per-run obligations over models REGENERATED from the tree under test by a translator of
+# tools/pregen.d/ (coq/Gen/*.v).  They are re-checked, together with Props/Prop<id>.v, by the check of
+# every property listed here (the slice models of these properties use the AccessMode predicates).
+GEN_OBLIGATIONS = {
+    "C03": ["Gen/ObAcsPred.v"], "C05": ["Gen/ObAcsPred.v"], "C06": ["Gen/ObAcsPred.v"], "C07": ["Gen/ObAcsPred.v"],
+}
+
+
 class Ctx:
     def __init__(self, pid, tier, seed):
         self.pid = pid
@@ -93,8 +101,17 @@ class Ctx:
         ok, out = self.coq_build()
         res = {"build_ok": ok, "theorems": [], "closed": [], "axioms": {}, "failed": None, "forbidden": self.forbidden_scan()}
         files = [os.path.join("Props", "Prop%s.v" % self.pid)] + list(extra_files)
+        for g in GEN_OBLIGATIONS.get(self.pid, []):
+            if g not in files:
+                # a missing file (translator failed) is reported by coqc below
+                files.append(g)
+                self.coverage.setdefault("regenerated_models", []).append(
+                    {"obligation": "coq/" + g, "translator": "harness/translators/gopure (tools/pregen.d/acspred.sh)",
+                     "source": "server/store/types/types.go (AccessMode constants, predicates, BetterThan/BetterEqual)"})
         thm_re = re.compile(r"^\s*(Theorem|Lemma|Corollary)\s+([A-Za-z0-9_']+)", re.M)
         for f in files:
+            if not os.path.exists(os.path.join(COQ, f)):
+                continue        # reported by coqc below
             src = open(os.path.join(COQ, f)).read()
             names = thm_re.findall(re.sub(r"\(\*.*?\*\)", "", src, flags=re.S))
             res["theorems"] += [n for _, n in names]
